@@ -44,7 +44,9 @@ def build():
                      "a pi-rotation about X (Z) is the Pauli X (Z) up to global phase (C07's rotation semantics)"]
     R.dropped = ["docstrings, type annotations, logging calls"]
 
-    def mk_corr(variant, hw, number, expect, extra):
+    def mk_corr(variant, hw, number, expect, extra, fmt="0.1"):
+        """fmt: format of the link-layer responses -- netqasm's own tuples ("0.1"), qlink-interface 1.0 objects ("1.0"), or 1.0 objects whose Bell state
+        is the plain integer of the 1.0 numbering, as read from the wire ("1.0 int")"""
         def f(ctx):
             b = 5
             kw = dict(hardware_config=(NVHardwareConfig(b) if hw == "nv" else GenericHardwareConfig(b)), max_qubits=b)
@@ -76,8 +78,14 @@ def build():
                                 if i >= number:
                                     return
                                 delivered["n"] += 1
-                                r = LinkLayerOKTypeK(type=ReturnType.OK_K, logical_qubit_id=phys_of_pair[i], directionality_flag=1, sequence_number=i,
-                                                     purpose_id=key[1], remote_node_id=key[0], bell_state=bells[i])
+                                if fmt == "0.1":
+                                    r = LinkLayerOKTypeK(type=ReturnType.OK_K, logical_qubit_id=phys_of_pair[i], directionality_flag=1, sequence_number=i,
+                                                         purpose_id=key[1], remote_node_id=key[0], bell_state=bells[i])
+                                else:
+                                    import qlink_interface as q10
+                                    named = [q10.BellState[bs.name] for bs in BellState if ctx.truth(ctx.eq(bells[i], bs))][0]     # the 1.0 member of the same NAME
+                                    r = q10.ResCreateAndKeep(create_id=0, logical_qubit_id=phys_of_pair[i], directionality_flag=1, sequence_number=i, purpose_id=key[1],
+                                                             remote_node_id=key[0], goodness=0, time_of_goodness=0, bell_state=(named if fmt == "1.0" else named.value))
                                 ctx.call(ex._handle_epr_response, r)
                 drive(ctx, ex, sub, on_wait)
             conn.runner = run
@@ -123,6 +131,11 @@ def build():
                     R.add(f"corrections[{variant}, {hw}, {number} pairs, {extra} other live]", kind="lia", samples=12, max_paths=2000,
                           thorough_only=(number >= 3))(mk_corr(variant, hw, number, True, extra))
             R.add(f"no-corrections[{variant}, {hw}, expectation off]", kind="lia", samples=8, max_paths=400)(mk_corr(variant, hw, 2 if (hw == "generic" or "then" in variant) else 1, False, 1))
+
+    for fmt in ("1.0", "1.0 int"):
+        for variant, hw in (("recv_keep", "nv"), ("recv_keep_post", "generic")):
+            R.add(f"corrections[{variant}, {hw}, 2 pairs, 0 other live, responses in qlink-interface 1.0 format{', Bell state as plain int' if fmt != '1.0' else ''}]",
+                  kind="lia", samples=16, max_paths=2000)(mk_corr(variant, hw, 2, True, 0, fmt))
 
     # ------------------------------------------------------------------ Pauli table (exact)
     def pauli_table(ctx):
